@@ -554,6 +554,34 @@ def configs(tier):
     return cfg
 
 
+def check_inherited(g, ax, name):
+    """a flux name offered by an euler2d instance but implemented by the 1D base class: judged on a handful of states"""
+    M = Euler2D(g, ax)
+    W = np.array([[1.0, 2.0, 0.5], [0.3, -0.2, 1.4], [0.1, 0.4, -0.6], [1.0, 1.5, 0.7]])
+    site = "C02/euler2d/%s/registered-for-2d-but-1d-implementation" % name
+    try:
+        with np.errstate(all="ignore"):
+            F = M.F(name, W, W.copy())
+        f = M.phys(W)
+        ok = all(np.shape(F[k]) == (3,) and np.all(np.abs(F[k] - f[k]) <= 1e-12 * (1 + np.abs(f[k]))) for k in range(4))
+        if ok:
+            return []
+        return [(site, "euler2d(gamma=%r).numflux(%r, W, W, face %s) is not the physical flux of W (shapes %r): the name resolves to a formula of the 1D base class" % (
+            g, name, "xy"[ax], [np.shape(x) for x in F]))]
+    except Exception as e:
+        return [(site, "euler2d(gamma=%r).numflux(%r, W, W, face %s) raises %r: the name resolves to a formula of the 1D base class" % (g, name, "xy"[ax], e))]
+
+
+def shard_inherited(arg):
+    g, ax, name = arg
+    res = core.Res()
+    res.evals += 3
+    res.nontrivial += 3
+    for s_, w in check_inherited(g, ax, name):
+        res.violation(s_, w, {"kind": "euler2d", "param": [g, ax], "flux": name, "inherited": True})
+    return res
+
+
 def shard(arg):
     kind, param, flux, tier = arg
     res = core.Res()
@@ -585,12 +613,16 @@ def shard(arg):
 
 def run(ctx):
     ctx.pmap("flux-pairs", shard, [c + (ctx.tier,) for c in configs(ctx.tier)])
+    # names an euler2d instance offers without a 2D implementation (its registry starts as a copy of the 1D base class's)
+    ctx.pmap("euler2d-names-with-1d-implementation", shard_inherited, [(1.4, ax, nm) for nm in space.inherited_1d_fluxes(space.euler.euler2d()) for ax in (0, 1)], procs=1)
 
 
 def replay(case):
     param = case["param"]
     if isinstance(param, list):
         param = tuple(param)
+    if case.get("inherited"):
+        return check_inherited(param[0], param[1], case["flux"])
     if "dtype" in case:
         return [(s_, w) for s_, w, i, dtn in dtype_independence(case["kind"], param, case["flux"]) if dtn == case["dtype"]]
     if "batch" in case:
